@@ -10,7 +10,6 @@
 #ifndef VERIF_C14_BOX_REJECT_H
 #define VERIF_C14_BOX_REJECT_H
 #include "../C03/box_base.h"
-#if defined(VERIF_CBMC)
 extern BOX_T G_bx_entry, G_by_entry; extern ITV_T G_xs_entry[BOX_N], G_ys_entry[BOX_N];
 #define ITV_SAME(a, b) (ITV_BITS(a) == ITV_BITS(b) && ITV_LO(a) == ITV_LO(b) && ITV_HI(a) == ITV_HI(b))
 SPEC int box_bits_same(const BOX_T *a, const BOX_T *b) { return BOX_BEGIN(a) == BOX_BEGIN(b) && BOX_END(a) == BOX_END(b) && BOX_CAP(a) == BOX_CAP(b) && BOX_FLAGS(a) == BOX_FLAGS(b); }
@@ -18,6 +17,11 @@ SPEC int c14_unchanged(void) {
   return box_bits_same(&G_bx, &G_bx_entry) && box_bits_same(&G_by, &G_by_entry)
       && ITV_SAME(&G_xs[0], &G_xs_entry[0]) && ITV_SAME(&G_xs[1], &G_xs_entry[1]) && ITV_SAME(&G_ys[0], &G_ys_entry[0]) && ITV_SAME(&G_ys[1], &G_ys_entry[1]);
 }
+/* native replay: the real call is made inside try / catch; THREW records whether std::invalid_argument came out */
+#define C_reject_POSTS(THREW) \
+  POST(never_returns_normally, (THREW)) \
+  POST(every_object_unchanged, c14_unchanged())
+#if defined(VERIF_CBMC)
 /* assumed contract of the two throw helpers (trusted: they format a message and throw std::invalid_argument) */
 void FN_b_throw_dim_box(const BOX_T *self, const uint8_t *method, const BOX_T *y) {
   __CPROVER_assert(c14_unchanged(), "rejected call: every object involved is unchanged when the exception is thrown");
